@@ -83,6 +83,7 @@ Inductive uerr :=
 | UDepOutside            (* "derived factor depends on a factor outside the design" *)
 | UEmptyCrossing         (* "empty crossing" *)
 | UStrided               (* "run-length constraint on a strided factor: documentation silent" *)
+| UHeldDerived           (* "held derived factor over dependencies that are not held with it: outside the reference semantics" *)
 | UKind (kind : string). (* the constraint kind *)
 
 Inductive res (A : Type) :=
@@ -746,6 +747,8 @@ Definition sem_factor (bd : blockdoc) (forder : list nat) (f : nat) : res dfacto
   if is_simple fd then Ok {| f_nlevels := nl; f_sustain := su; f_derived := None |}
   else
     '(deps, width, stride, start) <- window_params fd ;;
+    (* reading decision 10: Sem reads the window of a held derived factor at the group start only *)
+    if (1 <? su) && existsb (fun d => negb (sustain_get bd d =? su)) deps then Unsup UHeldDerived else
     tabs <- accepted_tables fd ;;
     enc <- enc_table deps tabs ;;
     pdeps <- mapM (pos_of forder) deps ;;
